@@ -1112,14 +1112,7 @@ namespace avel {
         _mm_maskstore_pd(ptr, mask, decay(v));
 
         #elif defined(AVEL_SSE2)
-        auto table_offset = masks128_table.size() / 2 - avel::min(vec2x64f::width, n) * sizeof(double);
-        auto mask = _mm_loadu_si128(reinterpret_cast<const __m128i*>(masks128_table.data() + table_offset));
-
-        _mm_maskmoveu_si128(
-            _mm_castpd_si128(decay(v)),
-            mask,
-            reinterpret_cast<char*>(ptr)
-        );
+        store_first_bytes(ptr, _mm_castpd_si128(decay(v)), avel::min(vec2x64f::width, n) * sizeof(double));
 
         #endif
 
